@@ -131,11 +131,14 @@ def locate_fn(repo, rel, owner, name, trait=None):
     return src, kind, cands[0]
 
 
-def locate_item(repo, rel, ikind, name):
+def locate_item(repo, rel, ikind, name, owner=None):
     src, kind = load(repo, rel)
     lim = tests_start(src, kind)
+    blocks = find_impl_blocks(src, kind, owner) if owner else None
     for m in re.finditer(r'\b' + ikind + r'\s+' + re.escape(name) + r'\b', src):
         if kind[m.start()] != 'c' or m.start() >= lim:
+            continue
+        if blocks is not None and not any(b < m.start() < e for b, e in blocks):
             continue
         s = m.start()
         # extend backwards over `pub`, `pub(crate)`
@@ -151,10 +154,22 @@ def locate_item(repo, rel, ikind, name):
             attrs.insert(0, mm.group(1).strip())
             s = mm.start()
         j = m.end()
-        while j < len(src):
-            if kind[j] == 'c' and src[j] in '{;(':
-                break
-            j += 1
+        if ikind in ('const', 'static', 'type'):
+            dpt = 0
+            while j < len(src):
+                if kind[j] == 'c':
+                    if src[j] in '([{':
+                        dpt += 1
+                    elif src[j] in ')]}':
+                        dpt -= 1
+                    elif src[j] == ';' and dpt == 0:
+                        break
+                j += 1
+        else:
+            while j < len(src):
+                if kind[j] == 'c' and src[j] in '{;(':
+                    break
+                j += 1
         if src[j] == '{':
             e = match_brace(src, kind, j) + 1
         elif src[j] == '(':  # tuple struct
@@ -429,12 +444,20 @@ def assemble(template_path, repo):
                     raise TemplateError('unexpected in item: ' + s2)
                 i += 1
             i += 1
-            src, kind, s, e, attrs = locate_item(repo, rel, ikind, name)
+            src, kind, s, e, attrs = locate_item(repo, rel, ikind, name, opts.get('owner') or None)
             raw = src[s:e]
             text = strip_comments(raw)
             iid = '%s %s' % (ikind, name)
             text = apply_rewrites(text, grws, meta['rewrites'], iid, required=False)
             text = apply_rewrites(text, rws, meta['rewrites'], iid)
+            if 'bytestr' in opts:
+                # byte string literals -> array literals of their bytes (Verus does not look inside b"..")
+                def _bs(mm):
+                    raw_b = bytes(mm.group(1), 'utf8').decode('unicode_escape').encode('latin1')
+                    return '&[' + ', '.join('0x%02xu8' % c for c in raw_b) + ']'
+                text, cnt = re.subn(r'b"((?:[^"\\]|\\.)*)"', _bs, text)
+                if cnt:
+                    meta['rewrites'].append({'where': iid, 'pattern': 'byte string literal', 'replacement': 'array literal of the same bytes', 'count': cnt})
             keep = [a_ for a_ in attrs if re.match(r'#\[derive\(', a_) and 'keepderive' in opts]
             meta['items'].append({'id': iid, 'file': rel, 'line': src.count('\n', 0, s) + 1,
                                   'sha256': hashlib.sha256(raw.encode()).hexdigest(),
@@ -515,6 +538,24 @@ def assemble(template_path, repo):
             })
             meta['regions'].append({'id': fid_out, 'kind': 'fn', 'start': start, 'end': cur_line - 1,
                                     'canary': 'canary' in opts})
+        elif cmd == 'lemma':
+            # //@lemma <name> serves=C02,...   ...verbatim text...   //@endlemma : a spec-level obligation owned by properties
+            a = arg.split()
+            lname = a[0]
+            opts = {}
+            for o in a[1:]:
+                k, _, v = o.partition('=')
+                opts[k] = v
+            start = cur_line
+            i += 1
+            while lines[i].strip() != '//@endlemma':
+                emit(lines[i] + '\n')
+                i += 1
+            i += 1
+            meta['functions'].append({'id': lname, 'source_fn': lname, 'file': '(specification)', 'line': 0, 'sha256': '',
+                                      'serves': [x for x in opts.get('serves', '').split(',') if x],
+                                      'canary': False, 'clauses': 1, 'lemma': True})
+            meta['regions'].append({'id': lname, 'kind': 'fn', 'start': start, 'end': cur_line - 1, 'canary': False})
         elif cmd == 'dupfn':
             # //@dupfn <fn id> rename=<new> serves=.. [known] ;; <regex> ==> <repl> ;; ...
             head, *rws = arg.split(' ;; ')
